@@ -176,11 +176,16 @@ func (e *subEnv) onFeed(l *ctree.Leaf) {
 	e.srv.Update(l)
 	offerCtx.Delete(id)
 	maxoff := 0
-	for _, c := range counts {
+	to := []string{}
+	for q, c := range counts {
 		if c > maxoff {
 			maxoff = c
 		}
+		if v, ok := queueOwner.Load(q); ok {
+			to = append(to, v.(*subRun).d.Name)
+		}
 	}
+	sort.Strings(to)
 	t := n.GetPrefix().GetTarget()
 	e.fmu.Lock()
 	for _, x := range feedProj(n) {
@@ -189,6 +194,7 @@ func (e *subEnv) onFeed(l *ctree.Leaf) {
 			x["val"] = "aux"
 		}
 		x["maxoff"] = maxoff // the most often this one notification was offered to any single client
+		x["to"] = to         // the subscribers it was offered to (those whose queue the driver already knows)
 		e.fed[t] = append(e.fed[t], x)
 	}
 	e.fmu.Unlock()
@@ -819,6 +825,20 @@ func subHook(point string, arg interface{}) {
 			default:
 			}
 		}
+	case "stream.queue":
+		// the client queue of a stream, before it is registered: offers can be told apart from the first one on
+		a := arg.([2]interface{})
+		if r, ok := a[0].(*subRun); ok {
+			q := a[1].(*coalesce.Queue)
+			r.mu.Lock()
+			r.queue = q
+			r.mu.Unlock()
+			queueOwner.Store(q, r)
+		}
+	case "stream.registered":
+		if r, ok := arg.(*subRun); ok {
+			r.env.emit(trace.E{"ev": "registered", "s": r.d.Name})
+		}
 	case "walk.end":
 		if atomic.LoadInt32(&nSlowWalkers) > 0 {
 			if _, ok := slowWalkers.LoadAndDelete(goid()); ok {
@@ -1210,8 +1230,12 @@ func genSubScenario(r *rand.Rand, sc int, profile string) subScenario {
 		if r.Intn(5) == 0 {
 			d.PrefixElems = []elemDesc{{Name: prefixContainer}}
 		}
-		for k, np := 0, 1+r.Intn(2); k < np; k++ {
-			d.Paths = append(d.Paths, genSubPath(r, true))
+		for k, np := 0, 1+r.Intn(3); k < np; k++ {
+			p := genSubPath(r, true)
+			if d.Origin == "" && len(d.PrefixElems) == 0 && r.Intn(4) == 0 {
+				p.Origin = "oc" // the origin carried by one subscription of the list, not by the prefix
+			}
+			d.Paths = append(d.Paths, p)
 		}
 		if profile == "overlap" && len(d.Paths) > 0 {
 			// overlapping subscription paths: a path and one of its prefixes / a glob variant
@@ -1343,6 +1367,9 @@ func subscribeRandom(args []string) error {
 		go func(s int) {
 			defer wg.Done()
 			for i := s; i < *n; i += len(ss.ws) {
+				if atomic.LoadInt64(&hangs) >= 24 {
+					return // every hang costs a 10 s bound: enough of them have been recorded
+				}
 				r := rand.New(rand.NewSource(seed*2750159 + int64(i)))
 				sc := genSubScenario(r, i, *profile)
 				b, _ := json.Marshal(sc)
